@@ -269,6 +269,10 @@ def run_index(case, elems, sigs, recs):
                     out = a[arg[0]: arg[1]]
                 elif kind == "mask":
                     out = a[numpy.array(arg, dtype=bool)]
+                elif kind == "fancy":
+                    out = a[numpy.array(arg)]
+                elif kind == "step":
+                    out = a[::arg[0]]
                 elif kind == "ravel":
                     out = a.reshape(-1)
                 elif kind == "column":
